@@ -89,6 +89,39 @@ XBW::~XBW() {
   delete A;
 }
 
+void XBW::save(std::ostream &output) const {
+  uint *alphaInt = new uint[nodesCount];
+  uint *lastInt = new uint[nodesCount / W + 1];
+  uint *AInt = new uint[nodesCount / W + 2];
+
+  for (uint i = 0; i < nodesCount / W + 1; i++)
+    lastInt[i] = 0;
+  for (uint i = 0; i < nodesCount / W + 2; i++)
+    AInt[i] = 0;
+
+  for (uint i = 0; i < nodesCount; i++) {
+    alphaInt[i] = alpha->access(i);
+    if (last->access(i))
+      bitset(lastInt, i);
+  }
+
+  // A has nodesCount+1 bits; the builder also marks the position after them
+  for (uint i = 0; i <= nodesCount; i++)
+    if (A->access(i))
+      bitset(AInt, i);
+  bitset(AInt, nodesCount + 1);
+
+  output.write((char *)&nodesCount, sizeof(uint));
+  output.write((char *)mapping, 257 * sizeof(uint));
+  output.write((char *)alphaInt, nodesCount * sizeof(uint));
+  output.write((char *)lastInt, (nodesCount / W + 1) * sizeof(uint));
+  output.write((char *)AInt, (nodesCount / W + 2) * sizeof(uint));
+
+  delete[] alphaInt;
+  delete[] lastInt;
+  delete[] AInt;
+}
+
 uint XBW::size() const {
   uint s = 0;
   s += alpha->getSize();
